@@ -55,6 +55,18 @@ def scenarios(rng, tier):
         sc["id"] = "run%d" % i
         sc["mode"] = "run"
         S.append(sc)
+    # inputs with records that have no residues (kalign drops them at run time): what is written afterwards must still be
+    # well-formed, every remaining sequence in every block
+    for i in range(6 if tier == "quick" else 60):
+        sc = gen.alignment_scenario(rng, nmax=7, lmax=150)
+        k = rng.choice([1, 2, 3])
+        for _ in range(k):
+            pos = rng.randrange(0, len(sc["seqs"])) if i % 3 else 0
+            sc["seqs"].insert(pos, "")
+            sc["names"].insert(pos, "empty%d_%d" % (i, len(sc["seqs"])))
+        sc["id"] = "runempty%d" % i
+        sc["mode"] = "run"
+        S.append(sc)
     return S
 
 
